@@ -969,6 +969,24 @@ def check(prop, spec, tier, seed, args):
                 if found:
                     notes.append("%s: counterexample derived from a non-identity surplus stage" % fwd)
                     continue
+            # values the code compares against or branches on (and their neighbours) are cheap, natively checked candidates
+            if not found:
+                consts = set()
+                for fname in (fwd, inv):
+                    for mm in re.finditer(r"const (\d+)_u(?:8|16|32|64|size)", fns[fname][2]):
+                        v = int(mm.group(1))
+                        for c in (v, v + 1, v - 1):
+                            if 0 <= c < (1 << w):
+                                consts.add(c)
+                consts.update([0, 1, (1 << w) - 1, (1 << (w - 1)), (1 << 32) - 1 if w > 32 else 65535])
+                for c in sorted(consts):
+                    for kind in ("GF", "FG"):
+                        if not found and replay_pair(native, fwd, inv, kind, c):
+                            violations.append(dict(kind=kind, func=fwd, x=c, why="constant from the function body used as a candidate input (solver inconclusive on the whole function)"))
+                            found = True
+                if found:
+                    notes.append("%s: counterexample from a body constant, confirmed natively" % fwd)
+                    continue
             # monolithic
             x = var("x", w)
             gf = substitute(G["whole"], G["in_name"], substitute(F["whole"], F["in_name"], x))
